@@ -28,12 +28,14 @@ func init() {
 				"request-specific adjustment (AD bit, ECS echo) and after hop-by-hop data is removed, and re-applies those " +
 				"adjustments on the hit path.",
 			NotCovered: "the rounding amount of the served TTL, LRU eviction, that the cache library honours the expiry (trusted).",
-			Rules: map[string]string{"C04-R25": "SetMinTTL stores max(the record's own TTL, the minimum parameter) into each answer record: no record's TTL is raised to that of a record before it", "C04-R26": "ecscache get passes the request's DO/AD wish to fromCacheItem on both lookups (table shared with C05-R3): a hit in the ECS-aware cache does not hand the stored AD bit to a client that asked for neither", "C04-R24": "the cache constructors take the TTL-override switch and the minimum TTL from the configuration as they are (a plain load of OverrideTTL / MinTTL into overrideTTL / cacheMinTTL): a configured minimum does not switch the override on by itself", "C04-R23": "the simple cache files an answer under the key of the request it answers: the message handed to toCacheKey on the store path is the handler's request, the same value as on the lookup path, not the upstream's response (whose OPT record, and with it the DO bit of the key, is the upstream's choice)", "C04-R22": "respIsECSDependent: an answer with a non-zero scope for a name outside the fake-ECS list goes to the subnet-keyed cache (table shared with C05-R16)", "C04-R21": "dnsmsg.IsDO looks the OPT record up wherever it stands in the additional section (Msg.IsEdns0) and reports its DO bit: a request with a record after the OPT record (TSIG, SIG(0)) is keyed under its real DO setting", "C04-R20": "ecscache.itemFromCache returns a miss when the stored item belongs to another host (64-bit key collision; shared with C12-R6)", "C04-R19": "ecscache ServeDNS: between the GeoIP subnet lookup and the cache lookup, the flag that separates the cache key of zero-prefix requests (isECSDeclined) is set from the length of the looked-up subnet: the answer an ECS-aware upstream gives to a /0 (scope 0, generic) is not stored under the key that located clients look up first", "C04-R18": "isCacheableNOERROR (both caches): the authority section qualifies a NODATA answer only through an SOA record", "C04-R16": "the main middleware disposes of the original response only when a different one was written (a response that is written, cached and disposed twice aliases pooled records; shared with C07-R3)", "C04-R17": "the initial middleware sets AD unconditionally in the request handed to the pipeline, so cached answers carry the upstream's AD for every requester (table shared with C01-R21)", "C04-R15": "ecscache ServeDNS: the upstream request carries the subnet the cache is keyed by (table shared with C05-R1)", "C04-R14": "TTL stores on records that may come from an additional section are guarded by a not-OPT test (the OPT TTL field is extended rcode / version / DO)", "C04-RC": "class rules (error chains, shadowed results, character classes, crossed arguments, pool constructors, array pools, loop completeness, loop-carried buffers, replacing setters, complete clones, Grow arithmetic, pooled-buffer escape, sorted searches, fresh decode targets, per-iteration objects, whole-message copies, codec guards) over the packages this property rests on", "C04-R13": "setECS leaves exactly one subnet option, in requests and responses alike (table shared with C05-R4)", "C04-R12": "cache wrappers (agdcache, ecscache, dnsserver/cache) use every parameter: key, value and expiration reach the wrapped cache", "C04-R1": "served TTL aged on every path", "C04-R2": "cache key completeness", "C04-R3": "cacheability and store tables",
+			Rules: map[string]string{"C04-R27": "ecscache.roundDiv is the quotient rounded to nearest (half away from zero) for every sign combination (table over sample values): a served TTL is never rounded up past the remaining lifetime", "C04-R25": "SetMinTTL stores max(the record's own TTL, the minimum parameter) into each answer record: no record's TTL is raised to that of a record before it", "C04-R26": "ecscache get passes the request's DO/AD wish to fromCacheItem on both lookups (table shared with C05-R3): a hit in the ECS-aware cache does not hand the stored AD bit to a client that asked for neither", "C04-R24": "the cache constructors take the TTL-override switch and the minimum TTL from the configuration as they are (a plain load of OverrideTTL / MinTTL into overrideTTL / cacheMinTTL): a configured minimum does not switch the override on by itself", "C04-R23": "the simple cache files an answer under the key of the request it answers: the message handed to toCacheKey on the store path is the handler's request, the same value as on the lookup path, not the upstream's response (whose OPT record, and with it the DO bit of the key, is the upstream's choice)", "C04-R22": "respIsECSDependent: an answer with a non-zero scope for a name outside the fake-ECS list goes to the subnet-keyed cache (table shared with C05-R16)", "C04-R21": "dnsmsg.IsDO looks the OPT record up wherever it stands in the additional section (Msg.IsEdns0) and reports its DO bit: a request with a record after the OPT record (TSIG, SIG(0)) is keyed under its real DO setting", "C04-R20": "ecscache.itemFromCache returns a miss when the stored item belongs to another host (64-bit key collision; shared with C12-R6)", "C04-R19": "ecscache ServeDNS: between the GeoIP subnet lookup and the cache lookup, the flag that separates the cache key of zero-prefix requests (isECSDeclined) is set from the length of the looked-up subnet: the answer an ECS-aware upstream gives to a /0 (scope 0, generic) is not stored under the key that located clients look up first", "C04-R18": "isCacheableNOERROR (both caches): the authority section qualifies a NODATA answer only through an SOA record", "C04-R16": "the main middleware disposes of the original response only when a different one was written (a response that is written, cached and disposed twice aliases pooled records; shared with C07-R3)", "C04-R17": "the initial middleware sets AD unconditionally in the request handed to the pipeline, so cached answers carry the upstream's AD for every requester (table shared with C01-R21)", "C04-R15": "ecscache ServeDNS: the upstream request carries the subnet the cache is keyed by (table shared with C05-R1)", "C04-R14": "TTL stores on records that may come from an additional section are guarded by a not-OPT test (the OPT TTL field is extended rcode / version / DO)", "C04-RC": "class rules (error chains, shadowed results, character classes, crossed arguments, pool constructors, array pools, loop completeness, loop-carried buffers, replacing setters, complete clones, Grow arithmetic, pooled-buffer escape, sorted searches, fresh decode targets, per-iteration objects, whole-message copies, codec guards) over the packages this property rests on", "C04-R13": "setECS leaves exactly one subnet option, in requests and responses alike (table shared with C05-R4)", "C04-R12": "cache wrappers (agdcache, ecscache, dnsserver/cache) use every parameter: key, value and expiration reach the wrapped cache", "C04-R1": "served TTL aged on every path", "C04-R2": "cache key completeness", "C04-R3": "cacheability and store tables",
 				"C04-R4": "lowest-TTL helper table", "C04-R5": "hit-path coverage and store ordering", "C04-R6": "cached items are private deep copies"},
 		}})
 }
 
 func runC04(c *an.Ctx) {
+	c.Floor("C04-R27", 1)
+	c04RoundDiv(c, "C04-R27")
 	c.Floor("C04-R25", 1)
 	c04MinTTLPerRecord(c, "C04-R25")
 	c.Floor("C04-R26", 1)
